@@ -1,516 +1,10 @@
-// x02 explores ConnTrack - the connection tracking of one router (router/connections.go, the policy half of
-// router/tun.go and router/traffic.go, router/ping_error.go) - beyond the listed properties.
-//
-// M: TLC checks ConnTrack exhaustively on two small shapes x isolation on/off (PolicyHolds, EntriesSound,
-// ErrScoped, OnlyNamed, NeverBetter) and refutes three questions (Q1 DeniedOnlyByDst, Q2 Recovers, Q3
-// OutFollowsPolicy); each counterexample is a behaviour of the MODEL only until it is executed.
-// R: simulation walks over seven 5-tuples and the three counterexamples are executed on a real router stack:
-// local packets through handleTunPacket, packets from the mesh sealed by the real remote router, error pings
-// produced by the real ErrorPingHandler of the sending router, time moved with the VerifAge hook, the real cleaner.
-// T: after every step the real table (verdict, age class, direction flag per 5-tuple) is logged and TLC
-// validates the log against ConnTrack_Trace (the unlogged cool-down state is inferred).
-// Observations only: nothing here decides a listed property.
+// x02 explores ConnTrack - the connection tracking of one router - beyond the listed properties (see
+// internal/conntrack). Observations only.
 package main
 
 import (
-	"fmt"
-	"math/rand"
-	"net/netip"
-	"path/filepath"
-	"sort"
-	"time"
-
-	"github.com/mycoria/mycoria/config"
-	"github.com/mycoria/mycoria/frame"
-	"github.com/mycoria/mycoria/mgr"
-
-	"verifharness/internal/mesh"
+	"verifharness/internal/conntrack"
 	"verifharness/internal/vf"
-	"verifharness/internal/world"
 )
 
-type key struct {
-	R   int
-	S   string
-	LP  int
-	Dir string
-}
-
-var outKeys = []key{{1, "t80", 1, "out"}, {1, "t80", 2, "out"}, {1, "t81", 1, "out"}, {1, "ic", 0, "out"}, {2, "t80", 1, "out"}}
-var inKeys = []key{{1, "t80", 0, "in"}, {2, "t81", 0, "in"}}
-
-func svcProtoPort(s string) (proto, port int) {
-	switch s {
-	case "t80":
-		return 6, 80
-	case "t81":
-		return 6, 81
-	}
-	return 58, 0
-}
-
-type scene struct {
-	ms      *mesh.Mesh
-	me      *world.Node
-	isolate bool
-}
-
-// node index of remote r: remote 1 = node 2, remote 2 = node 3
-func (s *scene) remote(r int) *world.Node { return s.ms.Node(r + 1) }
-
-func newScene(isolate bool) (*scene, error) {
-	ids := mesh.Identities(3)
-	st := config.Store{}
-	st.Router.Listen = []string{"tcp:47369"}
-	st.Router.Isolate = isolate
-	st.FriendConfigs = []config.FriendConfig{{Name: "bob", IP: ids[2].IP.String()}} // remote 2 is the friend
-	st.ServiceConfigs = []config.ServiceConfig{{Name: "web", URL: "tcp://:80", Public: true}}
-	st.Router.Address = ids[0].Store()
-	if _, err := st.Parse(); err != nil {
-		return nil, err
-	}
-	st.Router.Address = config.Store{}.Router.Address
-	edges := []mesh.Edge{{A: 1, B: 2, LA: 21, LB: 12}, {A: 1, B: 3, LA: 31, LB: 13}, {A: 2, B: 3, LA: 32, LB: 23}}
-	ms, err := mesh.New(3, edges, mesh.Opts{WithTun: func(i int) bool { return i == 1 }, Cfg: func(i int) config.Store {
-		if i == 1 {
-			return st
-		}
-		return config.Store{}
-	}})
-	if err != nil {
-		return nil, err
-	}
-	s := &scene{ms: ms, me: ms.Node(1), isolate: isolate}
-	for n := 2; n <= 3; n++ {
-		x := ms.Node(n)
-		sv, sx := s.me.St.GetSession(x.ID.IP), x.St.GetSession(s.me.ID.IP)
-		kx, kxt, _ := sx.Encryption().InitKeyClientStart()
-		rk, rkt, _ := sv.Encryption().InitKeyServer(kx, kxt)
-		_ = sx.Encryption().InitKeyClientComplete(rk, rkt)
-	}
-	return s, nil
-}
-
-func packet(src, dst netip.Addr, proto int, sport, dport int) []byte {
-	p := make([]byte, 64)
-	p[0] = 6 << 4
-	p[5] = 24
-	p[6] = byte(proto)
-	p[7] = 64
-	a, b := src.As16(), dst.As16()
-	copy(p[8:24], a[:])
-	copy(p[24:40], b[:])
-	p[40], p[41] = byte(sport>>8), byte(sport)
-	p[42], p[43] = byte(dport>>8), byte(dport)
-	return p
-}
-
-func (s *scene) drainTun() (frames, raws int) {
-	for {
-		select {
-		case <-s.me.Tun.SendFrame:
-			frames++
-			continue
-		case <-s.me.Tun.SendRaw:
-			raws++
-			continue
-		default:
-		}
-		return
-	}
-}
-
-// out: the local host sends one packet on 5-tuple k. Returns whether a frame left for the mesh and whether an ICMP error came back.
-func (s *scene) out(k key) (toMesh bool, icmp bool) {
-	proto, port := svcProtoPort(k.S)
-	sport := 0
-	if proto != 58 {
-		sport = 40000 + k.LP
-	}
-	s.ms.W.Inflight = nil
-	_ = world.WorkerCtx(func(w *mgr.WorkerCtx) {
-		pk := packet(s.me.ID.IP, s.remote(k.R).ID.IP, proto, sport, port)
-		buf := s.me.Builder.GetPooledSlice(len(pk))
-		copy(buf, pk)
-		s.me.Rt.VerifHandleTunPacket(w, buf[:len(pk)])
-	})
-	toMesh = s.ms.W.NInflight() > 0
-	s.ms.W.Inflight = nil // the network loses it: what comes back is an action of its own
-	_, raws := s.drainTun()
-	return toMesh, raws > 0
-}
-
-// in: remote k.R sends a packet: to a local service port (Dir "in") or mirroring the outbound 5-tuple k (Dir "out").
-func (s *scene) in(k key) (toTun bool) {
-	sender := s.remote(k.R)
-	proto, port := svcProtoPort(k.S)
-	sport, dport := 50000, port
-	if k.Dir == "out" {
-		sport, dport = port, 40000+k.LP
-	}
-	if proto == 58 {
-		sport, dport = 0, 0
-	}
-	pk := packet(sender.ID.IP, s.me.ID.IP, proto, sport, dport)
-	f, err := sender.Builder.NewFrameV1(sender.ID.IP, s.me.ID.IP, frame.NetworkTraffic, nil, pk, nil)
-	if err != nil {
-		panic(err)
-	}
-	if err := f.Seal(sender.St.GetSession(s.me.ID.IP)); err != nil {
-		panic(err)
-	}
-	raw, _ := f.FrameDataWithMargins(0, 0)
-	data := append([]byte(nil), raw...)
-	f.ReturnToPool()
-	_, _ = s.ms.W.DeliverRaw(sender, s.me, data)
-	frames, _ := s.drainTun()
-	s.ms.W.Inflight = nil // the access-denied ping the router may answer with is not delivered
-	return frames > 0
-}
-
-// errPing: router `from` produces a real error ping about router r / service sv and it is delivered.
-func (s *scene) errPing(from int, code string, r int, sv string) error {
-	snd := s.remote(from)
-	snd.Rt.VerifAge(11 * time.Second) // the sender's own 10 s cool-down per code is not the subject
-	s.ms.W.Inflight = nil
-	proto, port := svcProtoPort(sv)
-	about := s.remote(r).ID.IP
-	var err error
-	switch code {
-	case "unreachable":
-		err = snd.Rt.ErrorPing.SendUnreachable(s.me.ID.IP, about)
-	case "denied":
-		err = snd.Rt.ErrorPing.SendAccessDenied(s.me.ID.IP, about, uint8(proto), uint16(port))
-	case "rejected":
-		err = snd.Rt.ErrorPing.SendRejected(s.me.ID.IP, about, uint8(proto), uint16(port))
-	}
-	if err != nil {
-		return err
-	}
-	n := 0
-	for s.ms.W.NInflight() > 0 {
-		fl := s.ms.W.Take(0)
-		if fl.To == s.me {
-			if _, derr := s.ms.W.Deliver(fl); derr != nil {
-				return fmt.Errorf("deliver: %w", derr)
-			}
-			n++
-		}
-	}
-	if n == 0 {
-		return fmt.Errorf("no error ping left router %d", from)
-	}
-	return nil
-}
-
-func ageClass(sec int64) int {
-	switch {
-	case sec <= 2:
-		return 0
-	case sec <= 9:
-		return 1
-	case sec <= 599:
-		return 2
-	}
-	return 3
-}
-
-// table projects the real connection states onto the model's keys.
-func (s *scene) table() ([]map[string]any, []string) {
-	var out []map[string]any
-	var foreign []string
-	me := s.me.ID.IP
-	for _, e := range s.me.Rt.VerifConnStates() {
-		r := 0
-		for i := 1; i <= 2; i++ {
-			if e.RemoteIP == s.remote(i).ID.IP {
-				r = i
-			}
-		}
-		k := key{R: r}
-		ok := r != 0 && e.LocalIP == me
-		switch {
-		case e.Protocol == 58 && e.LocalPort == 0 && e.RemotePort == 0:
-			k.S, k.LP, k.Dir = "ic", 0, "out"
-		case e.Protocol == 6 && (e.RemotePort == 80 || e.RemotePort == 81) && (e.LocalPort == 40001 || e.LocalPort == 40002):
-			k.S, k.LP, k.Dir = fmt.Sprintf("t%d", e.RemotePort), int(e.LocalPort)-40000, "out"
-		case e.Protocol == 6 && e.RemotePort == 50000 && (e.LocalPort == 80 || e.LocalPort == 81):
-			k.S, k.LP, k.Dir = fmt.Sprintf("t%d", e.LocalPort), 0, "in"
-		default:
-			ok = false
-		}
-		if !ok {
-			foreign = append(foreign, fmt.Sprintf("%+v", e))
-			continue
-		}
-		st := map[string]string{"allowed": "allowed", "unreachable": "unreachable", "prohibited": "prohibited", "access denied": "denied", "rejected": "rejected"}[e.Status]
-		if st == "" {
-			st = "?" + e.Status
-		}
-		out = append(out, map[string]any{"r": k.R, "s": k.S, "lp": k.LP, "dir": k.Dir, "st": st, "age": ageClass(e.AgeSeconds), "inb": e.Inbound})
-	}
-	sort.Slice(out, func(i, j int) bool { return fmt.Sprint(out[i]) < fmt.Sprint(out[j]) })
-	return out, foreign
-}
-
-func toInt(v any) int {
-	switch x := v.(type) {
-	case float64:
-		return int(x)
-	case int:
-		return x
-	case int64:
-		return int(x)
-	}
-	return 0
-}
-
-type step struct {
-	Name string
-	K    key
-	From int
-	Code string
-}
-
-func stepOf(a map[string]any) (step, bool) {
-	name, _ := a["name"].(string)
-	st := step{Name: name}
-	switch name {
-	case "out":
-		st.K = key{toInt(a["r"]), a["s"].(string), toInt(a["lp"]), "out"}
-	case "in":
-		st.K = key{toInt(a["r"]), a["s"].(string), toInt(a["lp"]), a["dir"].(string)}
-	case "err":
-		st.From, st.Code = toInt(a["from"]), a["code"].(string)
-		st.K = key{R: toInt(a["r"]), S: a["s"].(string)}
-	case "tick", "jump", "clean", "heal":
-	default:
-		return st, false
-	}
-	return st, true
-}
-
-func (st step) String() string {
-	switch st.Name {
-	case "out", "in":
-		return fmt.Sprintf("%s(%d,%s,%d,%s)", st.Name, st.K.R, st.K.S, st.K.LP, st.K.Dir)
-	case "err":
-		return fmt.Sprintf("err(from %d: %s about %d/%s)", st.From, st.Code, st.K.R, st.K.S)
-	}
-	return st.Name
-}
-
-// exec runs one behaviour on a fresh scene and appends its events.
-func exec(c *vf.Ctx, isolate bool, steps []step, events *[]any) (verdicts []string, err error) {
-	s, err := newScene(isolate)
-	if err != nil {
-		return nil, err
-	}
-	*events = append(*events, map[string]any{"ev": "reset", "isolated": isolate})
-	for _, st := range steps {
-		ev := map[string]any{"ev": st.Name}
-		verdict := ""
-		switch st.Name {
-		case "out":
-			toMesh, icmp := s.out(st.K)
-			ev["r"], ev["s"], ev["lp"], ev["dir"] = st.K.R, st.K.S, st.K.LP, "out"
-			ev["tomesh"], ev["icmp"] = toMesh, icmp
-			verdict = fmt.Sprintf("tomesh=%v icmp=%v", toMesh, icmp)
-		case "in":
-			toTun := s.in(st.K)
-			ev["r"], ev["s"], ev["lp"], ev["dir"] = st.K.R, st.K.S, st.K.LP, st.K.Dir
-			ev["totun"] = toTun
-			verdict = fmt.Sprintf("totun=%v", toTun)
-		case "err":
-			if e := s.errPing(st.From, st.Code, st.K.R, st.K.S); e != nil {
-				return verdicts, fmt.Errorf("%s: %w", st, e)
-			}
-			ev["from"], ev["code"], ev["r"], ev["s"] = st.From, st.Code, st.K.R, st.K.S
-		case "tick":
-			s.me.Rt.VerifAge(6 * time.Second)
-		case "jump":
-			s.me.Rt.VerifAge(601 * time.Second)
-		case "clean":
-			s.me.Rt.VerifCleanConnStates()
-		case "heal":
-		}
-		tbl, foreign := s.table()
-		if len(foreign) > 0 {
-			return verdicts, fmt.Errorf("%s: entries outside the model's keys: %v", st, foreign)
-		}
-		ev["table"] = tbl
-		if tbl == nil {
-			ev["table"] = []map[string]any{}
-		}
-		*events = append(*events, ev)
-		verdicts = append(verdicts, verdict)
-		c.Eval(1)
-	}
-	if len(s.ms.W.Panics) > 0 {
-		return verdicts, fmt.Errorf("worker panic: %v", s.ms.W.Panics[0])
-	}
-	return verdicts, nil
-}
-
-func main() { vf.Main("X02", "model_checking", run) }
-
-func run(c *vf.Ctx) {
-	c.Rule("M: TLC exhaustive on ConnTrack, shapes A (3 five-tuples of one remote) and B (2 remotes + a service), isolation off/on: PolicyHolds, EntriesSound, ErrScoped, OnlyNamed, NeverBetter; Q1 DeniedOnlyByDst, Q2 Recovers (liveness under fairness), Q3 OutFollowsPolicy must be refuted. R: simulation walks over 7 five-tuples, 2 error senders, 3 codes (quick 60 / thorough 1500 walks of depth 40) and the three counterexamples executed on a real router; T: the real table after every step validated by TLC against ConnTrack_Trace. Observations only.")
-	c.Assume("time is moved with the VerifAge hook (entries' last-seen, the error handler's cool-down stamps); a tick is 6 s, a jump 601 s", "frames the router sends into the mesh are dropped by the network: what comes back is an action of its own")
-
-	for _, cfg := range []string{"ConnTrack_MC_A_FALSE.cfg", "ConnTrack_MC_A_TRUE.cfg", "ConnTrack_MC_B_FALSE.cfg", "ConnTrack_MC_B_TRUE.cfg"} {
-		res, err := c.TLC("ConnTrack_MC", cfg, vf.TLCOpts{Workers: 12, Timeout: 20 * time.Minute, Heap: "8g"})
-		if err != nil {
-			c.Fatal("M %s: %v", cfg, err)
-		}
-		c.AddModel(res.Distinct, res.Generated)
-		if res.Violated != "" {
-			c.Violation("model/"+res.Violated, cfg+": the ConnTrack model itself violates "+res.Violated, res.ErrTrace, nil)
-		}
-		c.Logf("M %s: %d distinct states", cfg, res.Distinct)
-	}
-
-	var events []any
-	type beh struct {
-		name    string
-		isolate bool
-		steps   []step
-	}
-	var behs []beh
-	// the three refuted questions: their counterexamples become behaviours to execute
-	questions := map[string]string{"Q1": "DeniedOnlyByDst", "Q2": "Recovers", "Q3": "OutFollowsPolicy"}
-	for _, q := range []string{"Q1", "Q2", "Q3"} {
-		res, err := c.TLC("ConnTrack_MC", "ConnTrack_"+q+".cfg", vf.TLCOpts{Workers: 4, Timeout: 20 * time.Minute, Heap: "8g"})
-		if err != nil {
-			c.Fatal("%s: %v", q, err)
-		}
-		if res.Violated == "" {
-			c.Broken("%s (%s) was expected to be refuted by TLC and was not", q, questions[q])
-			continue
-		}
-		var steps []step
-		for _, txt := range res.ErrTrace {
-			st, err := vf.ParseState(txt, "act")
-			if err != nil {
-				continue
-			}
-			a, _ := st["act"].(map[string]any)
-			if sp, ok := stepOf(a); ok {
-				steps = append(steps, sp)
-			}
-		}
-		if q == "Q2" {
-			// the lasso: repeat the loop part a few more times (the counterexample's suffix from the heal on)
-			hi := 0
-			for i, sp := range steps {
-				if sp.Name == "heal" {
-					hi = i
-				}
-			}
-			loop := append([]step(nil), steps[hi+1:]...)
-			for i := 0; i < 5; i++ {
-				steps = append(steps, loop...)
-			}
-		}
-		behs = append(behs, beh{name: q, steps: steps})
-		c.Logf("%s refuted by TLC (%s): %d steps", q, questions[q], len(steps))
-	}
-
-	nWalks := c.Pick(60, 1500)
-	for _, iso := range []bool{false, true} {
-		base := filepath.Join(c.Work, fmt.Sprintf("w%v", iso))
-		cfg := "ConnTrack_Sim_FALSE.cfg"
-		if iso {
-			cfg = "ConnTrack_Sim_TRUE.cfg"
-		}
-		if _, err := c.TLC("ConnTrack_MC", cfg, vf.TLCOpts{Workers: 1, Simulate: fmt.Sprintf("file=%s,num=%d", base, nWalks/2), Depth: 40, Seed: c.Seed, Timeout: 10 * time.Minute}); err != nil {
-			c.Fatal("simulation: %v", err)
-		}
-		for wi := 0; wi < nWalks/2; wi++ {
-			states, err := vf.SimWalk(fmt.Sprintf("%s_0_%d", base, wi), "act")
-			if err != nil || len(states) < 2 {
-				continue
-			}
-			var steps []step
-			for _, st := range states[1:] {
-				a, _ := st["act"].(map[string]any)
-				if sp, ok := stepOf(a); ok {
-					steps = append(steps, sp)
-				}
-			}
-			behs = append(behs, beh{name: fmt.Sprintf("walk%d", wi), isolate: iso, steps: steps})
-		}
-	}
-
-	rng := rand.New(rand.NewSource(c.Seed))
-	_ = rng
-	nsteps := 0
-	for _, b := range behs {
-		verdicts, err := exec(c, b.isolate, b.steps, &events)
-		if err != nil {
-			c.Fatal("R %s: %v", b.name, err)
-		}
-		nsteps += len(b.steps)
-		c.Distinct(fmt.Sprintf("%s|%v", b.name, b.isolate))
-		var hist []string
-		for i, sp := range b.steps {
-			hist = append(hist, sp.String()+" "+verdicts[i])
-		}
-		switch b.name {
-		case "Q1":
-			// did the flow to router 1 end up denied because of router 2's ping?
-			last := events[len(events)-1].(map[string]any)
-			for _, e := range last["table"].([]map[string]any) {
-				if e["r"] == 1 && e["st"] == "denied" {
-					c.Violation("Q1-denied-by-third-party", fmt.Sprintf("real router: an access-denied error ping from router 2 about router 1's service marked the local flow to router 1 as denied by the remote: %v", hist), map[string]any{"steps": hist}, nil)
-				}
-			}
-		case "Q2":
-			// the flow keeps being refused in the loop although nobody sends errors any more
-			refused := 0
-			heal := 0
-			for i, sp := range b.steps {
-				if sp.Name == "heal" {
-					heal = i
-				}
-			}
-			for i, sp := range b.steps {
-				if i > heal && sp.Name == "out" && sp.K.S == "ic" && verdicts[i] == "tomesh=false icmp=true" {
-					refused++
-				}
-			}
-			if refused >= 5 {
-				c.Violation("Q2-sticky-unreachable", fmt.Sprintf("real router: after the last error ping the flow that keeps sending was refused %d more times (every tick, with the cleaner running) and never recovered: %v", refused, hist[:min(len(hist), 16)]), map[string]any{"steps": hist}, nil)
-			}
-		case "Q3":
-			lastOut := -1
-			for i, sp := range b.steps {
-				if sp.Name == "out" {
-					lastOut = i
-				}
-			}
-			if lastOut >= 0 && verdicts[lastOut] == "tomesh=false icmp=true" {
-				c.Violation("Q3-inbound-blocks-outbound", fmt.Sprintf("real router: with no error ping at all, a packet FROM the remote host on the mirrored 5-tuple made the local host's own packet be refused as denied by the remote: %v", hist), map[string]any{"steps": hist}, nil)
-			}
-		}
-	}
-	c.Stage("R", map[string]any{"behaviours": len(behs), "steps": nsteps})
-	c.Logf("R: %d behaviours, %d steps executed", len(behs), nsteps)
-
-	rejectAt, inv, tres, err := c.TraceCheck("ConnTrack_Trace", "ConnTrack_Trace.cfg", events, vf.TLCOpts{Timeout: 30 * time.Minute, Heap: "8g"})
-	if err != nil {
-		c.Fatal("T: %v", err)
-	}
-	c.AddTraces(len(behs))
-	c.AddModel(tres.Distinct, tres.Generated)
-	c.Stage("T", map[string]any{"events": len(events), "wall_s": tres.Wall.Seconds()})
-	if rejectAt > 0 || inv != "" {
-		lo := rejectAt - 1
-		for lo > 0 && events[lo].(map[string]any)["ev"] != "reset" {
-			lo--
-		}
-		c.Violation(vf.Key("trace-mismatch"), fmt.Sprintf("the real router's table after step %d of a behaviour is not what ConnTrack allows (%s): %v", rejectAt-lo-1, inv, events[rejectAt-1]),
-			map[string]any{"events": events[lo:rejectAt]}, nil)
-	}
-	c.Logf("T: %d events validated", len(events))
-}
+func main() { vf.Main("X02", "model_checking", func(c *vf.Ctx) { conntrack.Run(c, false) }) }
